@@ -42,7 +42,8 @@ AppendNew(h, l) == LET RECURSIVE f(_, _)
 Reconfigure(l) ==
   LET newset == { l[j] : j \in DOMAIN l }
       h1 == AppendNew(hasher, l)
-      h2 == IF Fixed THEN SelectSeq(h1, LAMBDA x : x \in newset) ELSE h1      \* stale nodes removed (the fix)
+      (* as coded: the keys of the OLD clients that are not advertised any more leave the hasher (the fix) *)
+      h2 == IF Fixed THEN SelectSeq(h1, LAMBDA x : x \notin (clients \ newset)) ELSE h1
       dead2 == IF Fixed THEN {} ELSE dead
   IN /\ clients' = newset /\ hasher' = h2 /\ dead' = dead2
      /\ conns' = {}                                                          \* every old client is closed
@@ -83,6 +84,20 @@ Next == /\ steps < MaxSteps /\ steps' = steps + 1
         /\ IF Export /\ steps' = MaxSteps THEN PrintT(ToJson([tag |-> "EXP", hist |-> hist'])) ELSE TRUE
 Spec == Init /\ [][Next]_vars
 MonitorOK == bad = {}
+(* The bookkeeping invariant of HashClient that reconfiguration relies on: whatever is in the rotation has a client, *)
+(* nothing is listed twice, dead servers are out of the rotation but keep their client.  TLC checks it is INDUCTIVE   *)
+(* (SpecAny starts in every state that satisfies it and takes MaxSteps steps), and that from every such state a      *)
+(* reconfiguration establishes the contract: C19 for histories of any length, not only MaxSteps.                     *)
+NoDupSeq(q) == \A i, j \in DOMAIN q : i # j => q[i] # q[j]
+SeqSetOf(q) == { q[i] : i \in DOMAIN q }
+SysInv == /\ SeqSetOf(hasher) \subseteq clients /\ NoDupSeq(hasher)
+          /\ dead \cap SeqSetOf(hasher) = {} /\ dead \subseteq clients /\ conns \subseteq clients
+AllSeqs == UNION { { q \in [1..k -> 1..Universe] : NoDupSeq(q) } : k \in 0..Universe }
+InitAny == /\ clients \in SUBSET (1..Universe) /\ hasher \in AllSeqs /\ dead \in SUBSET (1..Universe)
+           /\ conns \in SUBSET (1..Universe)
+           /\ SysInv
+           /\ mon = DMonInit([vpc |-> Vpc]) /\ bad = {} /\ hist = <<>> /\ steps = 0
+SpecAny == InitAny /\ [][Next]_vars
 (* with nothing left in the rotation a key-addressed call raises ("all servers seem to be down"): the contract allows *)
 (* that only when every current node was made to fail since the last reconfiguration                                *)
 EmptyRotationOnlyByFaults == (mon.valid /\ hasher = <<>>) => mon.cur \subseteq mon.faulted
